@@ -154,7 +154,13 @@ def check_interleaved(ctx, ast, text, runs, cls, *, env=None, keys_prefix="~"):
     ga = impl.call(lambda: asyncio.run(all_()))
     ctx.count("gathered_async_evaluations", len(runs))
     for i in range(len(runs)):
-        want = sorted((tuple(loc), canon(v)) for loc, v in models[i])
+        # (the lazily loaded containers are not dicts/lists: queries that compare or search whole containers see them
+        # differently, so the reference here is the same compiled query run alone, synchronously, over such containers)
+        d_, e_ = runs[i]
+        solo = impl.call(lambda: [(tuple(m.parts), canon(unwrap(m.obj))) for m in env.compile(text).finditer(wrap(d_, Plan({}, None, None)), **({"filter_context": e_} if e_ is not None else {}))])
+        want = sorted(solo.value) if solo.ok else None
+        if want is None:
+            continue
         if not ga.ok or sorted(ga.value[i]) != want:
             ctx.violation("gathered-async-evaluations-of-one-compiled-query-differ-from-the-model:%s" % cls, case, {"text": text, "evaluation": i, "got": ga.desc() if not ga.ok else repr(ga.value[i])[:300], "model": repr(want)[:300]})
             return False
@@ -256,6 +262,8 @@ def _ctx_names_only(ast):
         x = stack.pop()
         if isinstance(x, list):
             if len(x) == 3 and x[0] == "q" and x[1] == "_":
+                if not x[2]:
+                    ok = False   # the mapping itself is an operand (length(_), _ == ..): its size and members matter
                 for seg in x[2]:
                     if seg[0] != "child" or any(sel[0] != "name" for sel in seg[1]):
                         ok = False
